@@ -13,6 +13,12 @@ Definition cap (m : hm) : nat := length (table m).
 
 Section WithHash.
 Variable hash : N -> N.                    (* the user's hasher, any total function *)
+(* Modelling assumptions about the hasher, both CHECKED on the real code by comp/hashmap/harness.cpp:
+   - it is fixed when the map is constructed: hash_map copies the hasher object (`Hash _hasher`), so later changes to the
+     caller's object, or its death, do not reach the map (harness: stateful hasher, op "reseed", temporary hasher);
+   - it is a function of the key VALUE: the templated get<KeyCompatible>() hashes its argument as given, so the hasher must
+     give one result per value whatever integer type carries it (harness: get() through int/short/long/Key arguments,
+     signed keys with frg::hash<int64_t>). *)
 
 (* ((unsigned int)_hasher(key)) % _capacity *)
 Definition bucket_of (c : nat) (k : N) : nat := N.to_nat ((hash k mod 4294967296) mod N.of_nat c).
